@@ -89,7 +89,9 @@ def cases(draw, tier):
 
 EXTRA_SCHEMES = [gen.PRESETS["unifying"], gen.scale(gen.PRESETS["unifying"], 2.0), gen.PRESETS["extended"],
                  gen.PRESETS["pseudodistance_half"], gen.PRESETS["induced"],
-                 [[0.0, 1.0, 1.0, 0.0, 1.0, 1.0], [0.5, 0.5, 0.0, 1.0, 1.0, 0.0]]]
+                 [[0.0, 1.0, 1.0, 0.0, 1.0, 1.0], [0.5, 0.5, 0.0, 1.0, 1.0, 0.0]],
+                 # ties cost nothing either way: input rankings that only differ by ties all score the same (often 0)
+                 [[0.0, 1.0, 0.0, 0.0, 0.0, 0.0], [0.0, 0.0, 0.0, 0.0, 0.0, 0.0]]]
 
 
 def check(case, ctx):
@@ -108,6 +110,8 @@ def check(case, ctx):
             c["scheme"], c["batched"] = sch, False
             c["family"] = "unifying" if sch[0][5] == sch[0][1] and sch[1][0] == sch[0][1] else "other"
             c["at_most_one"] = not case["at_most_one"] if sch is EXTRA_SCHEMES[2] else case["at_most_one"]
+            if sch is EXTRA_SCHEMES[-1]:
+                c["at_most_one"] = False
             check_one(c, ctx, shared)
 
 
